@@ -68,6 +68,7 @@ func (m *ModSet) keys() []string {
 }
 
 type Exec struct {
+	ai *assignInfo
 	v        *Verifier
 	fn       *ssa.Function
 	con      *Contract
@@ -443,6 +444,7 @@ func (x *Exec) run(s *State, b *ssa.BasicBlock, pred *ssa.BasicBlock, stop *ssa.
 			}
 			for i, p := range phis {
 				s.env[p] = vals[i]
+				s.setName(p.Comment, vals[i], false)
 			}
 		}
 		skipPhis = false
@@ -796,6 +798,7 @@ func (x *Exec) loopEnter(s *State, li *loopInfo, pred *ssa.BasicBlock) {
 	for _, p := range phis {
 		v := x.freshValue("phi_"+p.Comment, p.Type())
 		s.env[p] = v
+		s.setName(p.Comment, v, false)
 		s.assumeRanges(v)
 	}
 	// iterators whose next is in this loop: havoc visited
@@ -855,6 +858,7 @@ func (x *Exec) loopBack(s *State, li *loopInfo, pred *ssa.BasicBlock) {
 	}
 	for i, p := range phis {
 		s.env[p] = vals[i]
+		s.setName(p.Comment, vals[i], false)
 	}
 	for i, inv := range lc.spec.Invariants {
 		env := x.envFor(s, li)
